@@ -1075,12 +1075,35 @@ func (s *Sim) throttleStep() {
 	}
 	s.mu.Lock()
 	out := 0
+	seenGet := map[string]bool{}
 	for _, r := range s.tr.reqs {
-		if r.Seq <= s.quietReset.DlvSeq || r.Delivered {
+		if r.Seq <= s.quietReset.DlvSeq {
+			continue
+		}
+		// the first get request after the reset for a variant that a settled
+		// client held with data when the reset arrived is its re-fetch, and goes
+		// through the reset's throttle; a get for anything else may be a load
+		// (a resource whose earlier load failed is not cached, whatever the
+		// classification says)
+		key := ""
+		if r.Type == "get" && r.Rf == 2 {
+			key = r.Name + "?" + r.Query
+			if res := s.W.Res[r.Name]; res != nil {
+				if n, ok := res.normalise(r.Query); ok {
+					key = r.Name + "?" + n
+				}
+			}
+			if seenGet[key] || !s.quietReset.Must[key] {
+				seenGet[key] = true
+				continue
+			}
+			seenGet[key] = true
+		}
+		if r.Delivered {
 			continue
 		}
 		switch {
-		case r.Type == "get" && r.Rf == 2:
+		case key != "":
 			out++
 		case r.Type == "access" && r.CIdx >= 0:
 			var c *Client
